@@ -3291,7 +3291,8 @@ fn storm_phase(run: &Run, scratch: &Scratch, seed: u64, n_jobs: usize, parallel:
 				let dir = scratch.sub(&format!("storm-{}", i));
 				let out = scratch.sub(&format!("storm-{}.json", i));
 				let r = run_worker(
-					&["--worker-storm".to_string(), s.to_string(), dir.clone(), target_mib.to_string(), "6".to_string(), out.clone()],
+					// 6, 2 or 1 readers in turn: with few readers the store often sees no open transaction when the enlargement falls due
+					&["--worker-storm".to_string(), s.to_string(), dir.clone(), target_mib.to_string(), [6, 2, 1][i % 3].to_string(), out.clone()],
 					&format!("{}.log", dir),
 					Duration::from_secs(240),
 				);
@@ -3304,7 +3305,7 @@ fn storm_phase(run: &Run, scratch: &Scratch, seed: u64, n_jobs: usize, parallel:
 	let mut results = results.into_inner().unwrap();
 	results.sort_by_key(|r| r.0);
 	for (i, s, r, v) in results {
-		let replay = json!({"scenario": "reader-storm", "worker_seed": s, "cmd": format!("c18 --worker-storm {} <dir> {} 6 <out>", s, target_mib)});
+		let replay = json!({"scenario": "reader-storm", "worker_seed": s, "cmd": format!("c18 --worker-storm {} <dir> {} {} <out>", s, target_mib, [6, 2, 1][i % 3])});
 		let v = match (r.code, r.signal, r.timed_out, v) {
 			(Some(0), _, false, Some(v)) if v.get("broken").is_none() => v,
 			(_, Some(sig), false, _) => {
@@ -3331,7 +3332,7 @@ fn storm_phase(run: &Run, scratch: &Scratch, seed: u64, n_jobs: usize, parallel:
 			run.count(&format!("storm.reads.{}", k), v["reads"][k].as_u64().unwrap_or(0));
 		}
 		run.count("storm.sched_points", u("sched_points"));
-		run.eval(&format!("storm;enlargements={}", u("enlargements").min(16)), u("enlargements") >= 2);
+		run.eval(&format!("storm;readers={};enlargements={}", [6, 2, 1][i % 3], u("enlargements").min(16)), u("enlargements") >= 2);
 		run.eval_bulk(v["reads"].as_object().map(|o| o.values().filter_map(|x| x.as_u64()).sum()).unwrap_or(0), vec![]);
 		if i == 0 {
 			run.sample(json!({"scenario": "reader storm across enlargements", "result": v}));
@@ -4853,7 +4854,7 @@ fn main_full(run: &Run, scratch: &Scratch, seed: u64) {
 	run.require("multi-thread workers completed", done, n_mt as u64);
 	run.require("reader-storm runs completed", storm_runs, tier.pick(10, 100));
 	run.require("runs in which the writer waited 5 s or more for a reader that kept its iterator", holder_waited.load(Ordering::SeqCst), 1);
-	run.require("map enlargements while 6 readers kept read transactions coming", storm_enl, tier.pick(40, 400));
+	run.require("map enlargements while 6 / 2 / 1 readers kept read transactions coming", storm_enl, tier.pick(40, 400));
 	run.require("map resizes completed, minimum over workers", m("mt_resizes_completed"), tier.pick(2, 4));
 	run.require("largest single-snapshot iteration (keys), minimum over workers", m("mt_max_snapshot_keys_space0"), 10_001);
 	run.require(
